@@ -15,12 +15,12 @@
 #
 import datetime as dt
 import textwrap
-import traceback
 from functools import partial
 from io import StringIO
 
 from uberjob.progress._simple_progress_observer import (
     SimpleProgressObserver,
+    format_exception_tuple,
     get_elapsed_string,
     get_scope_string,
     sorted_scope_items,
@@ -69,7 +69,7 @@ def _print_new_exceptions(print_, new_exception_index, exception_tuples):
             )
             print_(
                 textwrap.indent(
-                    "".join(traceback.format_exception(*exception_tuple)),
+                    format_exception_tuple(exception_tuple),
                     prefix=" " * 4,
                 )
             )
